@@ -13,6 +13,7 @@ package c01
 
 import (
 	"bytes"
+	"crypto/aes"
 	"crypto/rand"
 	"crypto/rsa"
 	"crypto/sha256"
@@ -30,6 +31,7 @@ import (
 	"testing"
 
 	kitcrypto "github.com/dapr/kit/crypto"
+	"github.com/dapr/kit/crypto/aeskw"
 	enc "github.com/dapr/kit/schemes/enc/v1"
 
 	"verif/harness/internal/mon"
@@ -166,15 +168,67 @@ type cbMon struct {
 	v       *vault
 	wraps   []wrapCall
 	unwraps []unwrapCall
+	// busy: the key callbacks belong to a key store that itself protects its keys with enc/v1, so every
+	// call runs a small independent Encrypt/Decrypt round trip before it answers (the "matching unwrap
+	// function" may do anything it likes; the outer stream must not depend on what it does meanwhile)
+	busy    bool
+	busyErr string
+}
+
+var busyKey = bytes.Repeat([]byte{0x5a}, 32)
+
+func (m *cbMon) innerRoundTrip(label string) {
+	if !m.busy {
+		return
+	}
+	pt := bytes.Repeat([]byte("inner key record "+label+" "), 40)
+	wrapFn := func(k []byte, alg, name string, nonce []byte) ([]byte, []byte, error) {
+		blk, err := aes.NewCipher(busyKey)
+		if err != nil {
+			return nil, nil, err
+		}
+		out, err := aeskw.Wrap(blk, k)
+		return out, nil, err
+	}
+	unwrapFn := func(w []byte, alg, name string, nonce, tag []byte) ([]byte, error) {
+		blk, err := aes.NewCipher(busyKey)
+		if err != nil {
+			return nil, err
+		}
+		return aeskw.Unwrap(blk, w)
+	}
+	er, err := callEncrypt(bytes.NewReader(pt), enc.EncryptOptions{WrapKeyFn: wrapFn, Algorithm: enc.KeyAlgorithmAES256KW, KeyName: "inner"})
+	if err != nil {
+		m.busyErr = "inner Encrypt: " + err.Error()
+		return
+	}
+	ct, err := io.ReadAll(er)
+	if err != nil {
+		m.busyErr = "inner Encrypt stream: " + err.Error()
+		return
+	}
+	dr, err := callDecrypt(bytes.NewReader(ct), enc.DecryptOptions{UnwrapKeyFn: unwrapFn})
+	if err != nil {
+		m.busyErr = "inner Decrypt: " + err.Error()
+		return
+	}
+	got, err := io.ReadAll(dr)
+	if err != nil || !bytes.Equal(got, pt) {
+		m.busyErr = fmt.Sprintf("inner Decrypt stream: err=%v, %d of %d bytes equal=%v", err, len(got), len(pt), bytes.Equal(got, pt))
+		return
+	}
+	rec.Count("callback.inner_round_trips", 1)
 }
 
 func (m *cbMon) wrap(plaintextKey []byte, algorithm, keyName string, nonce []byte) ([]byte, []byte, error) {
+	m.innerRoundTrip("wrap")
 	out, err := m.v.wrap(plaintextKey, algorithm, keyName)
 	m.wraps = append(m.wraps, wrapCall{keyLen: len(plaintextKey), alg: algorithm, name: keyName, nonce: nonce != nil, out: append([]byte(nil), out...), err: err})
 	return out, nil, err
 }
 
 func (m *cbMon) unwrap(wrappedKey []byte, algorithm, keyName string, nonce, tag []byte) ([]byte, error) {
+	m.innerRoundTrip("unwrap")
 	out, err := m.v.unwrap(wrappedKey, algorithm, keyName)
 	m.unwraps = append(m.unwraps, unwrapCall{wfk: append([]byte(nil), wrappedKey...), alg: algorithm, name: keyName, nonce: nonce != nil, tag: tag != nil, err: err})
 	return out, err
@@ -595,7 +649,12 @@ func runCase(idx int, s spec) bool {
 	keyName, decName, override := c.names[0], c.names[1], c.names[2]
 	alg := algs[s.Alg]
 	v := newVault(strconv.Itoa(idx), keyName, decName, override)
-	cb := &cbMon{v: v}
+	cb := &cbMon{v: v, busy: idx%2 == 1}
+	defer func() {
+		if cb.busyErr != "" {
+			c.viol("callback/inner-round-trip", "an independent enc/v1 round trip run inside the key callback failed: "+cb.busyErr, nil)
+		}
+	}()
 
 	// what the manifest's "k" must be
 	manifestName := keyName
@@ -1008,10 +1067,10 @@ func TestCheck(t *testing.T) {
 		"Lengths {0,1,2,15,16,17,k*65536-1,k*65536,k*65536+1 (k=1..4), seeded random <= 400 KiB}; ciphers {nil, AES-GCM, ChaCha20-Poly1305}; the five algorithm ids and the aliases AES, RSA, each wrapped for real by kit's crypto package (AES-KW, AES-CBC no-pad 128/192/256, RSA-OAEP-256 2048 bit); "+
 		"source styles {all-at-once, 1-byte, seeded random chunks, zero-length reads interleaved, last data together with EOF, io.Pipe writer with random write sizes}; consumers {io.ReadAll, 1-byte/61-byte buffer, random sizes, 70000-byte buffer}. "+
 		"The first cases form a seeded covering array of strength 2 over these 13 dimensions (every pair of values of every two dimensions), the thorough tier adds the full product length<=65537 x cipher x algorithm x key-name options and the full product of the four reader/consumer styles at seven boundary lengths, the rest are seeded random vectors. "+
-		"Each case is judged by: the structural monitor on the ciphertext bytes, refenc.Decrypt(kit.Encrypt(pt))==pt, kit.Decrypt(kit.Encrypt(pt))==pt with clean EOF, kit.Decrypt(refenc.Encrypt(pt))==pt, the wrap/unwrap argument monitor and the ErrDecryptionKeyMissing rule. distinct = distinct dimension vectors; non-trivial = every case (a real encryption and three real decryptions); case 0 additionally decrypts kit's seven testdata files with refenc. "+
+		"Each case is judged by: the structural monitor on the ciphertext bytes, refenc.Decrypt(kit.Encrypt(pt))==pt, kit.Decrypt(kit.Encrypt(pt))==pt with clean EOF, kit.Decrypt(refenc.Encrypt(pt))==pt, the wrap/unwrap argument monitor and the ErrDecryptionKeyMissing rule; in every odd-numbered case the key callbacks are busy: each call runs an independent small enc/v1 Encrypt/Decrypt round trip before answering (a key store that protects its own records with the scheme), which must neither fail nor disturb the outer stream. distinct = distinct dimension vectors; non-trivial = every case (a real encryption and three real decryptions); case 0 additionally decrypts kit's seven testdata files with refenc. "+
 		"Huge cases (after the ordinary ones, each run by one child): a generated plaintext of 4 GiB + 64 KiB + 100 bytes = 65538 segments (every segment differs) is streamed through kit.Encrypt and decrypted by refenc's streaming reader (quick: AES-GCM; thorough: both ciphers and also refenc's streaming Encrypt -> kit.Decrypt), "+
 		"compared position by position with the generator, plus total length, segment count and ciphertext length; this is the only place where segment numbers >= 65536 (the upper half of the nonce's 32-bit counter) occur.")
-	rec.Note("require", []string{"struct.ok", "ref_decrypts_kit.ok", "kit_decrypts_ref.ok", "roundtrip.ok", "key_missing.ok", "testdata.files_decrypted_by_refenc",
+	rec.Note("require", []string{"callback.inner_round_trips", "struct.ok", "ref_decrypts_kit.ok", "kit_decrypts_ref.ok", "roundtrip.ok", "key_missing.ok", "testdata.files_decrypted_by_refenc",
 		"src.zero_length_reads", "src.eof_with_last_data", "src.pipe_sources", "length.len=0", "length.len=k*64K", "length.len=k*64K+1", "length.len=k*64K-1",
 		"huge.kit-to-ref.ok", "huge.segments_beyond_65535_authenticated", "alg.AES", "alg.RSA", "alg.A128CBC-NOPAD", "alg.A192CBC-NOPAD", "alg.A256CBC-NOPAD", "alg.A256KW", "alg.RSA-OAEP-256"})
 	rec.Note("plan", map[string]int{"covering_array_rows": nPairwise, "full_product_rows": nProduct, "total": len(specs)})
